@@ -171,8 +171,10 @@ func (s *c19Sink) healthAt(id uint32, i int) c19HealthLog {
 
 // ---- channel configurations that must not change what sweeps and health checks do ----------
 // logger: 0 none (ChannelOptions.Logger nil: the library default), 1 tchannel.NullLogger,
-//         2 the recording logger behind NewLevelLogger(.., LogLevelInfo) (debug off, Enabled(Debug) = false),
-//         3 the recording logger itself (Enabled() true for every level)
+//
+//	2 the recording logger behind NewLevelLogger(.., LogLevelInfo) (debug off, Enabled(Debug) = false),
+//	3 the recording logger itself (Enabled() true for every level)
+//
 // stats:  0 none (StatsReporter nil), 1 a recording reporter
 // The configuration is NOT part of the model's input: the model has one behaviour, every
 // configuration is compared with it and judged by the same oracle.  With logger 0 / 1 the health
